@@ -1,5 +1,6 @@
 pub mod echo;
 pub mod mem;
+pub mod memrw;
 
 pub type LaneFn = fn(&str) -> String;
 
@@ -7,6 +8,7 @@ pub fn find(name: &str) -> Option<LaneFn> {
     Some(match name {
         "echo" => echo::run,
         "mem" => mem::run,
+        "memrw" => memrw::run,
         _ => return None,
     })
 }
